@@ -584,9 +584,15 @@ func cmdCheck(args []string) int {
 		"wall_s":      round2(res.wall),
 		"violations":  len(violations),
 	}
-	os.MkdirAll(filepath.Join(verifRoot(), "evidence"), 0o755)
+	evDir := filepath.Join(verifRoot(), "evidence")
+	if d := os.Getenv("GOCV_EVIDENCE_DIR"); d != "" {
+		evDir = d // developer runs against seeded changes / scratch copies must not overwrite the committed evidence
+	} else if os.Getenv("GOCV_REPO") != "" {
+		evDir = filepath.Join(verifRoot(), ".work", "evidence-scratch")
+	}
+	os.MkdirAll(evDir, 0o755)
 	data, _ := json.MarshalIndent(ev, "", " ")
-	os.WriteFile(filepath.Join(verifRoot(), "evidence", prop+".json"), data, 0o644)
+	os.WriteFile(filepath.Join(evDir, prop+".json"), data, 0o644)
 	if toolError {
 		return 2
 	}
